@@ -557,6 +557,129 @@ pub fn run(items: &[Item], thread_counts: &[usize], rounds: usize, seed: u64, pr
     }
 }
 
+// ------------------------------------------------------------------------------------------------
+// (vi) delivery: the command line front-end given the same text as a file argument and on standard input, written in one
+// piece and in chunks whose boundaries fall inside multi-byte characters, slowly and fast. "Depends on nothing but the source
+// text and the configuration" includes how the bytes arrive.
+
+fn cli_run(args: &[String], stdin: Option<(&[u8], usize, bool)>) -> Option<Vec<u8>> {
+    let mut cmd = Command::new(crate::p_cli::cli_bin());
+    cmd.args(args).stdout(Stdio::piped()).stderr(Stdio::null());
+    cmd.stdin(if stdin.is_some() { Stdio::piped() } else { Stdio::null() });
+    let mut child = cmd.spawn().ok()?;
+    let writer = stdin.map(|(data, chunk, slow)| {
+        let data = data.to_vec();
+        let mut si = child.stdin.take().unwrap();
+        std::thread::spawn(move || {
+            let mut k = 0usize;
+            for piece in data.chunks(chunk.max(1)) {
+                if si.write_all(piece).is_err() || si.flush().is_err() {
+                    break;
+                }
+                k += 1;
+                // let the reader drain the pipe so that its next read ends at this boundary
+                if slow && (k <= 40 || k % 16 == 0) {
+                    std::thread::sleep(std::time::Duration::from_micros(if k <= 40 { 1500 } else { 200 }));
+                }
+            }
+        })
+    });
+    let out = child.wait_with_output().ok()?;
+    if let Some(w) = writer {
+        let _ = w.join();
+    }
+    if !out.status.success() {
+        return None;
+    }
+    Some(out.stdout)
+}
+
+pub fn delivery_history(acc: &mut Acc, thorough: bool) {
+    if !crate::p_cli::cli_bin().exists() {
+        acc.inconclusive("cli-binary-missing(delivery history skipped)");
+        return;
+    }
+    let mut big = String::new();
+    for n in 0..2600 {
+        big.push_str(&format!("第{}段 文字 naïve café — “引号” 😀 #f( {},{} ) 结束。\n\n", n, n, n + 1));
+    }
+    let mut emoji = String::from("= 😀 标题\n\n");
+    for n in 0..300 {
+        emoji.push_str(&format!("- 项目 {} 😀😀 `raw` $x_{} + α$\n", n, n));
+    }
+    let texts: Vec<(&str, String)> = vec![
+        ("small CJK", "= 标题\n\n你好，世界。 #f( 1,2 )\n".to_string()),
+        ("list with emoji (~12 kB)", emoji),
+        ("CJK prose (> 64 KiB)", big),
+    ];
+    let dir = std::env::temp_dir().join(format!("tyv-delivery-{}", std::process::id()));
+    let _ = std::fs::create_dir_all(&dir);
+    let styles: Vec<Vec<String>> = vec![vec![], vec!["-c".into(), "40".into(), "-t".into(), "4".into()]];
+    let mut deliveries = 0u64;
+    let mut boundaries_inside_chars = 0u64;
+    for (ti, (name, text)) in texts.iter().enumerate() {
+        let path = dir.join(format!("t{}.typ", ti));
+        if std::fs::write(&path, text).is_err() {
+            acc.inconclusive("delivery-harness-error");
+            continue;
+        }
+        let bytes = text.as_bytes();
+        for style in &styles {
+            let mut a = style.clone();
+            a.push(path.to_string_lossy().to_string());
+            let Some(reference) = cli_run(&a, None) else {
+                acc.inconclusive("delivery-reference-failed");
+                continue;
+            };
+            let mut chunkings: Vec<(usize, bool)> = vec![(usize::MAX, false), (3, true), (1000, true), (4099, false), (65_535, true), (65_537, false)];
+            if bytes.len() < 20_000 {
+                chunkings.push((1, true));
+                chunkings.push((7, false));
+            }
+            if thorough {
+                chunkings.extend([(2, true), (5, true), (64, true), (1023, true), (8191, true), (8193, false), (32_769, true)]);
+            }
+            for (chunk, slow) in chunkings {
+                // chunk size 1/2/3/5/7 on a text beyond 20 kB would take minutes when slow
+                if slow && chunk < 64 && bytes.len() > 20_000 {
+                    continue;
+                }
+                let got = cli_run(style, Some((bytes, chunk, slow)));
+                acc.evaluations += 1;
+                deliveries += 1;
+                if chunk < bytes.len() {
+                    boundaries_inside_chars += (1..bytes.len() / chunk.max(1) + 1).filter(|k| k * chunk < bytes.len() && !text.is_char_boundary(k * chunk)).count() as u64;
+                }
+                match got {
+                    None => acc.inconclusive("delivery-process-failed"),
+                    Some(g) if g == reference => {
+                        acc.held += 1;
+                        acc.nontrivial.insert(util::hash64_parts(&["delivery", name, &chunk.to_string(), &style.join(" ")]));
+                    }
+                    Some(g) => acc.violations.push(Violation {
+                        property: "C17".into(),
+                        input: text.chars().take(2000).collect(),
+                        cfg: None,
+                        origin: format!("delivery: {}", name),
+                        oracle: "same-bytes-however-delivered".into(),
+                        detail: format!(
+                            "`typstyle {}` reading the text on standard input in chunks of {} bytes{} prints something else than for the same text as a file argument: {}",
+                            style.join(" "),
+                            if chunk == usize::MAX { "all".to_string() } else { chunk.to_string() },
+                            if slow { " (paced writer)" } else { "" },
+                            crate::treeprops::first_line_diff(&String::from_utf8_lossy(&reference), &String::from_utf8_lossy(&g))
+                        ),
+                        extra: json!({"history": "delivery", "chunk": if chunk == usize::MAX { 0 } else { chunk }, "slow": slow}),
+                    }),
+                }
+            }
+        }
+    }
+    let _ = std::fs::remove_dir_all(&dir);
+    acc.count("cli_deliveries", deliveries);
+    acc.count("chunk_boundaries_inside_multibyte_characters", boundaries_inside_chars);
+}
+
 /// Small self-contained concurrent workload for the sanitizer builds (TSan, Miri): no subprocesses.
 pub fn stress_main(threads: usize, rounds: usize, n_items: usize) -> i32 {
     let texts = [
